@@ -113,6 +113,94 @@ pub fn dist_last(names: u8, prefix: &[(u8, Option<u8>)]) {
     std::mem::forget(m);
 }
 
+/// Reference root of `x` in a parent array obeying `cc[i] <= i`.
+fn ref_root<const N: usize>(cc: &[usize; N], x: usize) -> usize {
+    let mut r = x;
+    let mut k = 0;
+    while k < N { if cc[r] == r { break; } r = cc[r]; k += 1; }
+    r
+}
+
+/// One inductive step instead of call histories.  The state after ANY history of `add` calls over N names is a forest
+/// with `cc[i] <= i` (every such forest is reached: register the names in order, then link i -> cc[i] for i descending,
+/// both ends being representatives at that moment), names registered in order of first appearance (name k <-> index k).
+/// `reg` names are registered (the instance); the parent array is symbolic under the invariant.
+fn dist_state<const N: usize>(threads: usize, reg: usize) -> (FilenameDistributor<u8>, [usize; N]) {
+    let mut d = FilenameDistributor::<u8>::new(threads);
+    d.connected_components.reserve_exact(8);
+    let mut k = 0;
+    while k < reg { d.add(k as u8, None); k += 1; }
+    let mut cc = [0usize; N];
+    k = 0;
+    while k < N {
+        if k < reg { let p: usize = kani::any(); kani::assume(p <= k); cc[k] = p; d.connected_components[k] = p; } else { cc[k] = k; }
+        k += 1;
+    }
+    (d, cc)
+}
+
+/// build() from an arbitrary valid state with all N names registered: same representative => same worker; ids < threads.
+pub fn dist_state_build<const N: usize>() {
+    let threads: usize = kani::any();
+    kani::assume(threads >= 1 && threads <= 16);
+    let (d, cc) = dist_state::<N>(threads, N);
+    let m = d.build();
+    let mut x = 0;
+    while x < N {
+        let wx = *m.get(&(x as u8)).unwrap();
+        assert!(wx < threads, "worker id out of range");
+        assert!(wx == ref_root(&cc, x) % threads, "a name is not sent to its representative's worker");
+        let mut y = 0;
+        while y < x {
+            if ref_root(&cc, x) == ref_root(&cc, y) { assert!(wx == *m.get(&(y as u8)).unwrap(), "related names assigned to different workers"); }
+            y += 1;
+        }
+        x += 1;
+    }
+    kani::cover!(N >= 4 && cc[N - 1] == N - 2 && cc[N - 2] == N - 3 && cc[N - 3] == N - 4 && threads > 1, "parent chain of depth 3");
+    std::mem::forget(m);
+}
+
+/// add() from an arbitrary valid state with `reg` of N names registered: the invariant is kept, names stay registered in
+/// order, and exactly the two components of the call are merged (nothing else changes in the partition).
+pub fn dist_state_add<const N: usize>(reg: usize) {
+    let (mut d, cc) = dist_state::<N>(4, reg);
+    let a: u8 = kani::any();
+    let b: u8 = kani::any();
+    let has: bool = kani::any();
+    // names are introduced in order of first appearance (renaming symmetry)
+    kani::assume((a as usize) <= reg && (a as usize) < N);
+    let reg1 = if (a as usize) == reg { reg + 1 } else { reg };
+    kani::assume(!has || ((b as usize) <= reg1 && (b as usize) < N && a != b));
+    let reg2 = if has && (b as usize) == reg1 { reg1 + 1 } else { reg1 };
+    d.add(a, if has { Some(b) } else { None });
+    assert!(d.connected_components.len() == reg2, "number of registered names");
+    let mut after = [0usize; N];
+    let mut k = 0;
+    while k < N {
+        if k < reg2 {
+            after[k] = d.connected_components[k];
+            assert!(after[k] <= k, "representation invariant broken: an entry points upwards");
+            assert!(d.filename_to_index.get(&(k as u8)) == Some(&k), "name <-> index registration");
+        } else { after[k] = k; }
+        k += 1;
+    }
+    let (ra, rb) = (ref_root(&cc, a as usize), if has { ref_root(&cc, b as usize) } else { ref_root(&cc, a as usize) });
+    let mut x = 0;
+    while x < reg2 {
+        let mut y = 0;
+        while y < x {
+            let (ox, oy) = (ref_root(&cc, x), ref_root(&cc, y));
+            let want = ox == oy || ((ox == ra || ox == rb) && (oy == ra || oy == rb));
+            assert!((ref_root(&after, x) == ref_root(&after, y)) == want, "add merged the wrong components");
+            y += 1;
+        }
+        x += 1;
+    }
+    kani::cover!(has && ra != rb && cc[ra.max(rb)] == ra.max(rb), "two different components merged");
+    std::mem::forget(d);
+}
+
 /// Vacuity twin.
 pub fn dist_twin() {
     let mut d = FilenameDistributor::<u8>::new(4);
